@@ -27,6 +27,11 @@ BUILT = {
             'operands constructed to give non-zero values; one-, two- and zero-site effective operators at every position are compared with the projection of the '
             'dense operator between embedded states and tested for Hermiticity.',
             'dense reach d^L <= 1024; 1e-11 relative to the product of site-tensor norms', '4 (C04)'),
+    'C05': ('exhaustive enumeration of small chain programs + Hypothesis program generation; free-algebra (non-commutative polynomial) oracle with exact Fractions',
+            'Exploration, exhaustive for its small scope: every list of <= 2 chains for L <= 3 over three symbols and four coefficients (50 688 programs) plus generated '
+            'lists (L <= 8, <= 15 chains, duplicates, cancellations, zero coefficients, charges) are compiled; the graph polynomial (sum over paths) must equal the sum of padded '
+            'chains exactly; MPO conversion is judged by node-charge / nid_map / tensor-slice predicates and by the dense matrix of the polynomial under random charge-respecting operator maps.',
+            'exact rational arithmetic for dyadic coefficients, 1e-12 relative for arbitrary floats; dense part limited to d^L <= 600', '4 (C05)'),
     'C12': ('Hypothesis random search over designed-spectrum block matrices and boundary tolerances; independent dense-SVD oracle',
             'Exploration: generated block-sparse matrices with designed spectra (decaying, degenerate within/across blocks, rank deficient), '
             'tolerances at 0, random and exactly on cumulative weights, plus two-site tensor splits with all three distributions; judged against numpy '
